@@ -19,6 +19,7 @@ def dispatch (j : Json) : R (Json × Json) := do
   | "iter" => runIter j
   | "forest" => runForest j
   | "lockstep" => runLockstep j
+  | "adversarial" => runForest j
   | "nav" => runNav j
   | "walk" => runWalk j
   | "search" => runSearch j
